@@ -135,11 +135,19 @@ def op_history_batch(task):
             allt = {out_name: out, **ins}
             return fns[kind](*[allt[n].cffi_tensor for n in names])
 
-        rec = {"cid": inp.get("cid"), "rc": []}
+        rec = {"cid": inp.get("cid"), "rc": [], "evaluate": []}
         o1 = fresh()
         rec["rc"].append(call("evaluate", o1))
         take_ownership_of_arrays(o1.cffi_tensor)
-        rec["evaluate"] = _raw(o1)
+        rec["evaluate"].append(_raw(o1))
+        for m in inp.get("maps", []):   # what evaluate yields for the re-valued inputs
+            for t in ins.values():
+                _apply_map(t, m)
+            oe = fresh()
+            rec["rc"].append(call("evaluate", oe))
+            take_ownership_of_arrays(oe.cffi_tensor)
+            rec["evaluate"].append(_raw(oe))
+        ins = {name: _tensor(spec) for name, spec in inp["tensors"].items()}   # back to the original values
         o2 = fresh()
         rec["rc"].append(call("assemble", o2))
         rec["assemble"] = {"levels": o2.taco_indices}
